@@ -33,6 +33,9 @@ def _case(draw):
                 "scale": draw(st.sampled_from([1.0, 1.0, 3.0, 0.3])), "ulp": draw(st.sampled_from([0, 0, 1, 2]))}
     c["prime"] = draw(st.sampled_from([None, None, "inverse", "forward"]))
     c["mode"] = draw(st.sampled_from(["eval", "eval", "eval", "train"]))
+    c["double_twin"] = draw(st.integers(0, 5)) == 0
+    if c["double_twin"]:
+        c["inp"]["special"], c["inp"]["ulp"] = 0.0, 0
     if draw(st.integers(0, 39)) == 0:
         # a wide linear layer whose determinant leaves the floating-point range although its logarithm is modest
         c["shape"], c["dom"], c["ctx"] = [draw(st.sampled_from([64, 100, 128, 144]))], "R", None
@@ -62,9 +65,15 @@ def _has(spec, name):
 
 def run_case(case):
     res = CaseResult()
-    with dtype_mode(True):
+    twin = bool(case.get("double_twin"))
+    # default: everything under a float64 default dtype; "double_twin": the way users get double precision - built under the float32
+    # default, converted with .double(), fed float64 inputs (constants created in the default dtype would stay single precision)
+    with dtype_mode(not twin):
         b = zoo.instantiate(case)
         m = b.module
+        if twin:
+            m.double()
+            res.labels.append("double_twin")
         if case.get("wscale", 1.0) != 1.0:
             with torch.no_grad():
                 if hasattr(m, "_weight"):
@@ -78,6 +87,10 @@ def run_case(case):
         ctx = zoo.gen_context(b, case.get("ctx"), n, case["inp"]["seed"]) if b.uses_ctx or case.get("ctx") else None
         if case.get("ctx") is None:
             ctx = None
+        if twin:
+            X = X.double()
+            ctx = ctx.double() if ctx is not None else None
+            special = torch.zeros_like(special)       # knots were located in single precision: no exact special points here
         train = case.get("mode") == "train" and not b.batch_coupled_in_train and not _has(case["spec"], "actnorm") \
             and not any(isinstance(mod, torch.nn.modules.batchnorm._BatchNorm) for mod in m.modules())
         if train:
